@@ -154,3 +154,14 @@ Proof.
     repeat split; try lia.
     replace (a + (m - a mod m))%N with ((a / m + 1) * m)%N by nia. apply N.mod_mul. lia.
 Qed.
+
+Lemma last_app_cons {A} (a:list A) y r d : last (a ++ y :: r) d = last (y :: r) d.
+Proof.
+  induction a as [|z a IH]; [reflexivity|]. cbn [app]. destruct (a ++ y :: r) eqn:E; [destruct a; discriminate|].
+  change (last (z :: a0 :: l) d) with (last (a0 :: l) d). exact IH.
+Qed.
+Lemma last_in_cons {A} (y:A) r d : In (last (y :: r) d) (y :: r).
+Proof.
+  revert y. induction r as [|z r IH]; intros y; [left; reflexivity|].
+  change (last (y :: z :: r) d) with (last (z :: r) d). right. apply IH.
+Qed.
